@@ -79,6 +79,23 @@ func (s *segQueue) add(x []byte) {
 	}
 }
 
+// addEOM is add with the end-of-message status on the last packet.
+func (s *segQueue) addEOM(x []byte) {
+	for off := 0; off < len(x); off += pqChunk {
+		end := off + pqChunk
+		if end > len(x) {
+			end = len(x)
+		}
+		p := &tds.Packet{Data: x[off:end:end]}
+		p.Header.Length = uint16(8 + end - off)
+		if end == len(x) {
+			p.Header.Status = tds.TDS_BUFSTAT_EOM
+		}
+		s.q.AddPacket(p)
+		s.sizes = append(s.sizes, end-off)
+	}
+}
+
 func (s *segQueue) flat() int {
 	pi, di := s.q.Position()
 	off := di
@@ -192,6 +209,24 @@ func (x *c07Runner) run(e c07Enc, exhaustiveMax int, only int) {
 			continue
 		}
 		r.SetAdd("not_enough_bytes_error_shapes", typ+": "+digitsRe.ReplaceAllString(res.Err.Error(), "N"))
+		// the same prefix as the end of a message (its last packet carries
+		// the end-of-message status): still "not enough bytes"
+		if exhaustive || k%4 == 0 {
+			r.Eval(1)
+			eq := newSegQueue()
+			eq.addEOM(X[:k])
+			resE := parseFrom(eq.q, prevOf())
+			switch {
+			case resE.Panic != nil:
+				r.Violate("prefix/"+typ+"/panic/end-of-message", fmt.Sprintf("prefix of %d of %d bytes (%s) in a packet with the end-of-message status: panic %s at %s", k, len(X), hexHead(X[:k]), resE.Panic.Value, resE.Panic.Frame), x.rec(e, k))
+			case resE.Err == nil:
+				r.Violate("prefix/"+typ+"/nil/end-of-message", fmt.Sprintf("prefix of %d of %d bytes (%s) in a packet with the end-of-message status was parsed without error into %s", k, len(X), hexHead(X[:k]), clip(pkgDump(resE.Pkg), 300)), x.rec(e, k))
+			case !isNotEnough(resE.Err):
+				r.Violate("prefix/"+typ+"/other-error/end-of-message", fmt.Sprintf("prefix of %d of %d bytes (%s) in a packet with the end-of-message status: %q at stage %s, which is not ErrNotEnoughBytes", k, len(X), hexHead(X[:k]), resE.Err.Error(), resE.Stage), x.rec(e, k))
+			default:
+				r.Count("prefixes_ending_a_message", 1)
+			}
+		}
 		// resume: roll back, let the rest arrive, parse with a fresh package
 		sq.q.SetPosition(0, 0)
 		sq.add(X[k:])
